@@ -175,14 +175,58 @@ Section TexIter.
   Variable Lay : layout.
   Hypothesis HLay : iter_new Lay = ITex first len 0 0.
 
-  Definition dinv (d : decoder) : Prop :=
-    d_layout d = Lay /\ exists idx level, d_it d = ITex first len idx level /\ inv idx level /\ d_pos d = offset_of idx level.
+  (* ---- the specification: a cursor i over the flattened surface list of len*mips surfaces *)
+  Definition total : N := len * mips.
+  Inductive cres := COk | CErr (e : dec_err).
+  Definition c_consume (i : N) (bad : bool) (e : dec_err) : cres * N :=
+    if total <=? i then (CErr ENoMoreSurfaces, i) else if bad then (CErr e, i) else (COk, i + 1).
+  Definition c_skip_mips (i : N) : N :=
+    if (i <? total) && negb (i mod mips =? 0) then (i / mips + 1) * mips else i.
+  Definition c_offset (i : N) : N := offset_of (i / mips) (i mod mips).
 
-  Lemma dinv_init : 1 <= mips -> dinv (dec_init Lay).
+  Definition rel (d : decoder) (i : N) : Prop :=
+    d_layout d = Lay /\ exists idx level, d_it d = ITex first len idx level /\ inv idx level /\
+      d_pos d = offset_of idx level /\ abs idx level = i.
+
+  Lemma abs_divmod idx level : level < mips -> abs idx level / mips = idx /\ abs idx level mod mips = level.
   Proof.
-    intros _. unfold dinv, dec_init. cbn [d_layout d_it d_pos]. split; [reflexivity|].
+    intros Hl. unfold abs. split.
+    - rewrite N.div_add_l by lia. rewrite N.div_small by lia. lia.
+    - rewrite N.add_comm, N.mod_add by lia. apply N.mod_small. exact Hl.
+  Qed.
+  Lemma abs_lt idx level : inv idx level -> (abs idx level < total <-> idx < len).
+  Proof.
+    intros [Hi [Hl He]]. unfold abs, total. split; intros H.
+    - destruct (N.eq_dec idx len) as [->|]; [nia|lia].
+    - assert (idx * mips + mips <= len * mips) by nia. lia.
+  Qed.
+  Lemma rel_le d i : rel d i -> i <= total.
+  Proof.
+    intros [_ [idx [level [_ [Hinv [_ Ha]]]]]]. subst i. destruct Hinv as [Hi [Hl He]].
+    destruct (N.eq_dec idx len) as [E|E].
+    - rewrite (He E). subst. unfold abs, total. lia.
+    - assert (abs idx level < total) by (apply abs_lt; [repeat split; assumption|lia]). lia.
+  Qed.
+
+  Lemma rel_init : rel (dec_init Lay) 0.
+  Proof.
+    unfold rel, dec_init. cbn [d_layout d_it d_pos]. split; [reflexivity|].
     exists 0, 0. rewrite HLay. split; [reflexivity|]. split; [unfold inv; lia|].
-    unfold offset_of, part. cbn. lia.
+    unfold offset_of, part, abs. cbn. lia.
+  Qed.
+
+  (* what the decoder reports at cursor i *)
+  Lemma rel_observe d i : rel d i ->
+    d_pos d = c_offset i /\
+    iter_current (d_it d) = Some (if i <? total then Some (info_at (i mod mips)) else None).
+  Proof.
+    intros [_ [idx [level [Hit [Hinv [Hpos Ha]]]]]]. pose proof Hinv as [Hi [Hl He]].
+    destruct (abs_divmod idx level Hl) as [Hdv Hmo]. rewrite Ha in Hdv, Hmo.
+    unfold c_offset. rewrite Hdv, Hmo. split; [exact Hpos|]. rewrite Hit.
+    pose proof (abs_lt idx level Hinv) as Hlt. rewrite Ha in Hlt.
+    destruct (N.ltb_spec i total) as [H|H].
+    - apply cur_in; [apply Hlt; exact H|exact Hl].
+    - apply cur_end. destruct (N.lt_ge_cases idx len) as [H'|H']; [|exact H']. apply Hlt in H'. lia.
   Qed.
 
   Lemma offset_step idx level : idx < len -> level < mips ->
@@ -209,81 +253,92 @@ Section TexIter.
   Qed.
 
   (* a successful read / rect read / skip moves the cursor by one and the reader by the surface length *)
-  Lemma consume_step d idx level : d_layout d = Lay -> d_it d = ITex first len idx level -> inv idx level ->
-    d_pos d = offset_of idx level -> idx < len ->
+  Lemma consume_step d i : rel d i -> i < total ->
     exists it', iter_advance (d_it d) = Some it' /\
-      dinv (mkDec (d_layout d) it' (d_pos d + si_len (info_at level))).
+      rel (mkDec (d_layout d) it' (d_pos d + si_len (info_at (i mod mips)))) (i + 1).
   Proof.
-    intros Hlay Hit Hinv Hpos Hi. destruct Hinv as [Hi' [Hl He]].
-    destruct (adv_in idx level Hi Hl) as [idx' [level' [Ha [Hinv' Habs]]]].
-    rewrite Hit. exists (ITex first len idx' level'). split; [exact Ha|].
-    unfold dinv. cbn [d_layout d_it d_pos]. split; [exact Hlay|].
-    exists idx', level'. split; [reflexivity|]. split; [exact Hinv'|].
+    intros [Hlay [idx [level [Hit [Hinv [Hpos Ha]]]]]] Hlt. pose proof Hinv as [Hi' [Hl He]].
+    assert (Hi : idx < len) by (apply (abs_lt idx level Hinv); rewrite Ha; exact Hlt).
+    destruct (abs_divmod idx level Hl) as [_ Hmo]. rewrite Ha in Hmo. rewrite Hmo.
+    destruct (adv_in idx level Hi Hl) as [idx' [level' [Hadv [Hinv' Habs]]]].
+    rewrite Hit. exists (ITex first len idx' level'). split; [exact Hadv|].
+    unfold rel. cbn [d_layout d_it d_pos]. split; [exact Hlay|].
+    exists idx', level'. split; [reflexivity|]. split; [exact Hinv'|]. split; [|lia].
     rewrite Hpos. cbn [si_len info_at]. symmetry. apply (offset_step idx level Hi Hl idx' level' Habs Hinv').
   Qed.
 
-  Definition step_ok (r : dres) (d : decoder) : Prop :=
+  Lemma c_offset_le d i : rel d i -> d_pos d <= L * len.
+  Proof. intros [_ [idx [level [_ [Hinv [Hpos _]]]]]]. rewrite Hpos. apply offset_le. exact Hinv. Qed.
+
+  (* outcome of one decoder operation against the spec cursor: same verdict, same next cursor;
+     an I/O refusal (a seek amount above i64::MAX) is the only other possibility and needs a data
+     section larger than i64::MAX bytes *)
+  Definition agrees (r : dres) (d : decoder) (c : cres * N) : Prop :=
     match r with
-    | DOk d' => dinv d'
-    | DErr EIo _ => True                      (* legitimate I/O refusal (seek amounts above i64::MAX) *)
-    | DErr _ d' => d' = d                     (* rejected without moving *)
+    | DOk d' => fst c = COk /\ rel d' (snd c)
+    | DErr EIo _ => I64MAX < L * len
+    | DErr e d' => fst c = CErr e /\ d' = d
     | DPanic => False
     end.
 
-  Lemma read_ok d ws : dinv d -> step_ok (read_current d ws) d.
+  Lemma read_ok d i ws : rel d i -> agrees (read_current d ws) d (c_consume i ws EUnexpectedSurfaceSize).
   Proof.
-    intros [Hlay [idx [level [Hit [Hinv Hpos]]]]]. unfold read_current. rewrite Hit.
-    destruct (N.lt_ge_cases idx len) as [Hi|Hi].
-    - rewrite cur_in by (try exact Hi; apply Hinv).
-      destruct ws; [cbn; reflexivity|].
-      destruct (consume_step d idx level Hlay Hit Hinv Hpos Hi) as [it' [Ha Hd]].
-      rewrite Hit in Ha. rewrite Ha. exact Hd.
-    - rewrite cur_end by exact Hi. cbn. reflexivity.
+    intros Hrel. destruct (rel_observe d i Hrel) as [_ Hcur]. unfold read_current, c_consume. rewrite Hcur.
+    destruct (N.ltb_spec i total) as [Hi|Hi]; destruct (N.leb_spec total i) as [Hj|Hj]; try lia.
+    - destruct ws; [cbn; auto|].
+      destruct (consume_step d i Hrel Hi) as [it' [Ha Hd]]. rewrite Ha. cbn. split; [reflexivity|exact Hd].
+    - cbn. auto.
   Qed.
-  Lemma rect_ok d oob : dinv d -> step_ok (rect_current d oob) d.
+  Lemma rect_ok d i oob : rel d i -> agrees (rect_current d oob) d (c_consume i oob ERectOutOfBounds).
   Proof.
-    intros [Hlay [idx [level [Hit [Hinv Hpos]]]]]. unfold rect_current. rewrite Hit.
-    destruct (N.lt_ge_cases idx len) as [Hi|Hi].
-    - rewrite cur_in by (try exact Hi; apply Hinv).
-      destruct oob; [cbn; reflexivity|].
-      destruct (consume_step d idx level Hlay Hit Hinv Hpos Hi) as [it' [Ha Hd]].
-      rewrite Hit in Ha. rewrite Ha. exact Hd.
-    - rewrite cur_end by exact Hi. cbn. reflexivity.
+    intros Hrel. destruct (rel_observe d i Hrel) as [_ Hcur]. unfold rect_current, c_consume. rewrite Hcur.
+    destruct (N.ltb_spec i total) as [Hi|Hi]; destruct (N.leb_spec total i) as [Hj|Hj]; try lia.
+    - destruct oob; [cbn; auto|].
+      destruct (consume_step d i Hrel Hi) as [it' [Ha Hd]]. rewrite Ha. cbn. split; [reflexivity|exact Hd].
+    - cbn. auto.
   Qed.
-  Lemma skip_ok d : dinv d -> step_ok (skip_surface d) d.
+  Lemma skip_ok d i : rel d i -> agrees (skip_surface d) d (c_consume i false EIo).
   Proof.
-    intros [Hlay [idx [level [Hit [Hinv Hpos]]]]]. unfold skip_surface. rewrite Hit.
-    destruct (N.lt_ge_cases idx len) as [Hi|Hi].
-    - rewrite cur_in by (try exact Hi; apply Hinv).
-      destruct (consume_step d idx level Hlay Hit Hinv Hpos Hi) as [it' [Ha Hd]].
-      rewrite Hit in Ha. unfold io_skip.
-      destruct (N.eqb_spec (si_len (info_at level)) 0) as [Hz|Hz].
-      + rewrite Ha. rewrite Hz, N.add_0_r in Hd. exact Hd.
-      + destruct (I64MAX <? si_len (info_at level)); [cbn; exact I|].
-        destruct (d_pos d + si_len (info_at level) <? U64); [|cbn; exact I].
-        rewrite Ha. exact Hd.
-    - rewrite cur_end by exact Hi. cbn. reflexivity.
+    intros Hrel. destruct (rel_observe d i Hrel) as [_ Hcur]. unfold skip_surface, c_consume. rewrite Hcur.
+    destruct (N.ltb_spec i total) as [Hi|Hi]; destruct (N.leb_spec total i) as [Hj|Hj]; try lia.
+    - destruct (consume_step d i Hrel Hi) as [it' [Ha Hd]]. unfold io_skip.
+      destruct (N.eqb_spec (si_len (info_at (i mod mips))) 0) as [Hz|Hz].
+      + rewrite Ha. rewrite Hz, N.add_0_r in Hd. cbn. split; [reflexivity|exact Hd].
+      + pose proof (c_offset_le _ _ Hd) as Hb. cbn [d_pos] in Hb.
+        destruct (N.ltb_spec I64MAX (si_len (info_at (i mod mips)))); [cbn; lia|].
+        destruct (N.ltb_spec (d_pos d + si_len (info_at (i mod mips))) U64); [|cbn; lia].
+        rewrite Ha. cbn. split; [reflexivity|exact Hd].
+    - cbn. auto.
   Qed.
-  Lemma skip_mips_ok d : dinv d ->
-    match skip_mipmaps d with DOk d' => dinv d' | DErr EIo _ => True | _ => False end.
+
+  Lemma skip_mips_ok d i : rel d i -> agrees (skip_mipmaps d) d (COk, c_skip_mips i).
   Proof.
-    intros [Hlay [idx [level [Hit [Hinv Hpos]]]]]. unfold skip_mipmaps. rewrite Hit.
-    destruct Hinv as [Hi [Hl He]].
-    destruct (N.lt_ge_cases idx len) as [Hlt|Hge]; [destruct (N.eq_dec level 0) as [Hz|Hz]|].
+    intros Hrel. pose proof Hrel as [Hlay [idx [level [Hit [Hinv [Hpos Ha]]]]]].
+    unfold skip_mipmaps, c_skip_mips. rewrite Hit. pose proof Hinv as [Hi [Hl He]].
+    destruct (abs_divmod idx level Hl) as [Hdv Hmo]. rewrite Ha in Hdv, Hmo. rewrite Hdv, Hmo.
+    pose proof (abs_lt idx level Hinv) as Hlt. rewrite Ha in Hlt.
+    destruct (N.lt_ge_cases idx len) as [Hlt'|Hge]; [destruct (N.eq_dec level 0) as [Hz|Hz]|].
     - rewrite skip_noop by (right; exact Hz). cbn [io_skip N.eqb].
-      unfold dinv. cbn [d_layout d_it d_pos]. split; [exact Hlay|]. exists idx, level. repeat split; try assumption.
+      replace (level =? 0) with true by (symmetry; apply N.eqb_eq; exact Hz).
+      rewrite andb_false_r. cbn. split; [reflexivity|].
+      unfold rel. cbn [d_layout d_it d_pos]. split; [exact Hlay|]. exists idx, level. repeat split; try assumption.
     - rewrite skip_in by lia. unfold io_skip.
+      replace (i <? total) with true by (symmetry; apply N.ltb_lt; apply Hlt; exact Hlt').
+      replace (level =? 0) with false by (symmetry; apply N.eqb_neq; exact Hz). cbn [andb negb].
       pose proof (part_le level ltac:(lia)) as Hpl.
+      assert (Hnew : rel (mkDec (d_layout d) (ITex first len (idx + 1) 0) (d_pos d + (L - part level))) ((idx + 1) * mips)).
+      { unfold rel. cbn [d_layout d_it d_pos]. split; [exact Hlay|]. exists (idx + 1), 0.
+        split; [reflexivity|]. split; [unfold inv; lia|]. split; [|unfold abs; lia]. rewrite Hpos. unfold offset_of.
+        rewrite part_0, N.mul_add_distr_l, N.mul_1_r. lia. }
       destruct (N.eqb_spec (L - part level) 0) as [Hz0|Hz0];
-        [|destruct (I64MAX <? L - part level); [exact I|]; destruct (d_pos d + (L - part level) <? U64); [|exact I]].
-      + unfold dinv. cbn [d_layout d_it d_pos]. split; [exact Hlay|]. exists (idx + 1), 0.
-        split; [reflexivity|]. split; [unfold inv; lia|]. rewrite Hpos. unfold offset_of.
-        rewrite part_0, N.mul_add_distr_l, N.mul_1_r. lia.
-      + unfold dinv. cbn [d_layout d_it d_pos]. split; [exact Hlay|]. exists (idx + 1), 0.
-        split; [reflexivity|]. split; [unfold inv; lia|]. rewrite Hpos. unfold offset_of.
-        rewrite part_0, N.mul_add_distr_l, N.mul_1_r. lia.
+        [|pose proof (c_offset_le _ _ Hnew) as Hb; cbn [d_pos] in Hb;
+          destruct (N.ltb_spec I64MAX (L - part level)); [cbn; lia|]; destruct (N.ltb_spec (d_pos d + (L - part level)) U64); [|cbn; lia]].
+      + cbn. split; [reflexivity|]. rewrite Hz0, N.add_0_r in Hnew. exact Hnew.
+      + cbn. split; [reflexivity|]. exact Hnew.
     - rewrite skip_noop by (left; exact Hge). cbn [io_skip N.eqb].
-      unfold dinv. cbn [d_layout d_it d_pos]. split; [exact Hlay|]. exists idx, level. repeat split; try assumption.
+      replace (i <? total) with false by (symmetry; apply N.ltb_ge; destruct (N.lt_ge_cases i total) as [H'|H']; [apply Hlt in H'; lia|exact H']).
+      cbn. split; [reflexivity|].
+      unfold rel. cbn [d_layout d_it d_pos]. split; [exact Hlay|]. exists idx, level. repeat split; try assumption.
   Qed.
 
   Lemma inv_lt idx level idx' level' : inv idx level -> inv idx' level' -> abs idx' level' < abs idx level -> idx' < len.
@@ -293,35 +348,279 @@ Section TexIter.
     rewrite (He' E) in Ha. subst idx'. nia.
   Qed.
 
-  Lemma rewind_prev_ok d : dinv d ->
-    match rewind_prev d with DOk d' => dinv d' | _ => False end.
+  Lemma rewind_prev_ok d i : rel d i ->
+    match rewind_prev d with DOk d' => rel d' (i - 1) | DErr EIo _ => I64MAX < L * len | _ => False end.
   Proof.
-    intros [Hlay [idx [level [Hit [Hinv Hpos]]]]]. unfold rewind_prev. rewrite Hit.
+    intros [Hlay [idx [level [Hit [Hinv [Hpos Hi]]]]]]. unfold rewind_prev. rewrite Hit.
     rewrite (elapsed idx level Hinv).
     destruct (rew idx level Hinv) as [idx' [level' [Hr [Hinv' Habs]]]]. rewrite Hr.
     rewrite (elapsed idx' level' Hinv').
-    assert (Hle : offset_of idx' level' <= offset_of idx level /\
-                  (abs idx level = 0 -> offset_of idx' level' = offset_of idx level)).
+    assert (Hle : offset_of idx' level' <= offset_of idx level).
     { destruct (N.eq_dec (abs idx level) 0) as [Hz|Hz].
       - unfold abs in *. assert (idx = 0 /\ level = 0) as [-> ->] by nia.
-        assert (idx' = 0 /\ level' = 0) as [-> ->] by nia. split; [lia|reflexivity].
+        assert (idx' = 0 /\ level' = 0) as [-> ->] by nia. lia.
       - assert (Hlt : idx' < len) by (apply (inv_lt idx level idx' level' Hinv Hinv'); lia).
         pose proof (offset_step idx' level' Hlt ltac:(apply Hinv') idx level ltac:(lia) Hinv) as S.
-        split; [lia|]. intros; lia. }
-    destruct Hle as [Hle _].
+        lia. }
     replace (offset_of idx level <? offset_of idx' level') with false by (symmetry; apply N.ltb_ge; exact Hle).
     unfold seek_back.
     pose proof (offset_le idx level Hinv) as Hb.
-    destruct (N.ltb_spec I64MAX (offset_of idx level - offset_of idx' level')) as [Hbig|Hbig].
-    - (* one surface larger than i64::MAX: cannot happen after a successful read or skip of it, but a
-         layout may contain one; the refusal is an I/O error, which we exclude by the bound below *)
-      exfalso. revert Hbig. 
-      (* surfaces are at most isize::MAX bytes whenever they can be decoded; for the general statement
-         we keep the hypothesis explicit *)
-      admit.
-    - rewrite Hpos.
-      replace (offset_of idx level - offset_of idx' level' <=? offset_of idx level) with true by (symmetry; apply N.leb_le; lia).
-      unfold dinv. cbn [d_layout d_it d_pos]. split; [exact Hlay|]. exists idx', level'.
-      split; [reflexivity|]. split; [exact Hinv'|]. lia.
-  Abort.
+    destruct (N.ltb_spec I64MAX (offset_of idx level - offset_of idx' level')) as [Hbig|Hbig]; [lia|].
+    rewrite Hpos.
+    replace (offset_of idx level - offset_of idx' level' <=? offset_of idx level) with true by (symmetry; apply N.leb_le; lia).
+    unfold rel. cbn [d_layout d_it d_pos]. split; [exact Hlay|]. exists idx', level'.
+    split; [reflexivity|]. split; [exact Hinv'|]. split; [lia|]. lia.
+  Qed.
+
+  Lemma rewind_start_ok d i : rel d i ->
+    match rewind_start d with DOk d' => d' = dec_init Lay | DErr EIo d' => d' = d /\ I64MAX < L * len | _ => False end.
+  Proof.
+    intros [Hlay [idx [level [Hit [Hinv [Hpos _]]]]]]. unfold rewind_start. rewrite Hit.
+    rewrite (elapsed idx level Hinv). unfold seek_back.
+    pose proof (offset_le idx level Hinv) as Hb.
+    destruct (N.ltb_spec I64MAX (offset_of idx level)) as [Hbig|Hbig]; [split; [reflexivity|lia]|].
+    rewrite Hpos. rewrite N.leb_refl. rewrite N.sub_diag. rewrite Hlay. reflexivity.
+  Qed.
+
+  (* ---- cube-map reads *)
+  Hypothesis HLayA : forall a, Lay = LArray a -> a_w a = w /\ a_h a = h.
+
+  Fixpoint c_cube (faces : list (N * N * N)) (i : N) (acc : list (N * N * N)) : cres * N * list (N * N * N) :=
+    match faces with
+    | [] => (COk, i, acc)
+    | (_, x, y) :: rest =>
+        if total <=? i then (CErr ENoMoreSurfaces, i, acc) else
+        let lv := i mod mips in
+        if negb ((mip_dim w lv =? w) && (mip_dim h lv =? h)) then (CErr EUnexpectedSurfaceSize, i, acc) else
+        c_cube rest (c_skip_mips (i + 1)) (acc ++ [(x, y, i / mips)])
+    end.
+  Definition c_read_cube (i : N) (ws : bool) : cres * N * list (N * N * N) :=
+    match layout_cube_faces Lay with
+    | None => (CErr ENotACubeMap, i, [])
+    | Some faces =>
+        if ws || negb ((w * 4 <? U32) && (h * 3 <? U32)) then (CErr EUnexpectedSurfaceSize, i, [])
+        else c_cube (filter (fun f => has_bits faces (fst (fst f))) face_table) i []
+    end.
+
+  Definition agrees3 (rc : dres * list (N * N * N)) (c : cres * N * list (N * N * N)) : Prop :=
+    match fst rc with
+    | DOk d' => fst (fst c) = COk /\ rel d' (snd (fst c)) /\ snd rc = snd c
+    | DErr EIo _ => I64MAX < L * len
+    | DErr e d' => fst (fst c) = CErr e /\ rel d' (snd (fst c)) /\ snd rc = snd c
+    | DPanic => False
+    end.
+
+  Lemma cube_loop_ok faces : forall d i acc, rel d i -> agrees3 (cube_loop faces w h d acc) (c_cube faces i acc).
+  Proof.
+    induction faces as [|[[fb x] y] rest IH]; intros d i acc Hrel.
+    - cbn. auto.
+    - cbn [cube_loop c_cube]. destruct (rel_observe d i Hrel) as [_ Hcur]. rewrite Hcur.
+      destruct (N.ltb_spec i total) as [Hi|Hi]; destruct (N.leb_spec total i) as [Hj|Hj]; try lia.
+      2:{ cbn. auto. }
+      cbn [si_w si_h info_at].
+      destruct (negb ((mip_dim w (i mod mips) =? w) && (mip_dim h (i mod mips) =? h))); [cbn; auto|].
+      assert (Helem : match d_it d with ITex _ _ idx _ => idx | _ => 0 end = i / mips).
+      { destruct Hrel as [_ [idx [level [Hit [Hinv [_ Ha]]]]]]. rewrite Hit.
+        destruct (abs_divmod idx level ltac:(apply Hinv)) as [Hdv _]. rewrite Ha in Hdv. symmetry. exact Hdv. }
+      rewrite Helem.
+      pose proof (read_ok d i false Hrel) as Hr. unfold c_consume in Hr.
+      destruct (N.leb_spec total i); [lia|]. cbn [fst snd] in Hr.
+      destruct (read_current d false) as [d1|e d1|]; [| |exact Hr].
+      + cbn in Hr. destruct Hr as [_ Hrel1].
+        pose proof (skip_mips_ok d1 (i + 1) Hrel1) as Hs.
+        destruct (skip_mipmaps d1) as [d2|e d2|]; [| |exact Hs].
+        * cbn in Hs. destruct Hs as [_ Hrel2]. apply IH. exact Hrel2.
+        * destruct e; cbn in Hs; try (destruct Hs as [Hs _]; discriminate Hs). cbn. exact Hs.
+      + destruct e; cbn in Hr; try (destruct Hr as [Hr _]; discriminate Hr). cbn. exact Hr.
+  Qed.
+
+  Lemma read_cube_ok d i ws : rel d i -> agrees3 (read_cube_map d ws) (c_read_cube i ws).
+  Proof.
+    intros Hrel. pose proof Hrel as [Hlay _]. unfold read_cube_map, c_read_cube. rewrite Hlay.
+    destruct (layout_cube_faces Lay) as [faces|] eqn:Hf.
+    - destruct Lay as [t|v|a] eqn:HL'; try discriminate Hf.
+      destruct (HLayA a eq_refl) as [-> ->].
+      destruct (ws || negb ((w * 4 <? U32) && (h * 3 <? U32))).
+      + cbn. auto.
+      + apply cube_loop_ok. exact Hrel.
+    - cbn. auto.
+  Qed.
+
+  (* ---- one step and whole runs *)
+  Definition c_step (i : N) (op : dec_op) : cres * N * list (N * N * N) :=
+    match op with
+    | OpRead ws => (c_consume i ws EUnexpectedSurfaceSize, [])
+    | OpRect oob => (c_consume i oob ERectOutOfBounds, [])
+    | OpSkip => (c_consume i false EIo, [])
+    | OpSkipMips => ((COk, c_skip_mips i), [])
+    | OpRewindPrev => ((COk, i - 1), [])
+    | OpRewindStart => ((COk, 0), [])
+    | OpCube ws => c_read_cube i ws
+    end.
+  Definition is_cube (op : dec_op) : bool := match op with OpCube _ => true | _ => false end.
+
+  Lemma dec_err_eq (a b : dec_err) : {a = b} + {a <> b}.
+  Proof. decide equality. Qed.
+
+  Lemma c_consume_err i bad e e' : fst (c_consume i bad e) = CErr e' -> snd (c_consume i bad e) = i.
+  Proof. unfold c_consume. destruct (total <=? i); [reflexivity|]. destruct bad; [reflexivity|discriminate]. Qed.
+
+  Lemma lift r d i c : rel d i -> agrees r d c -> (forall e, fst c = CErr e -> snd c = i) ->
+    agrees3 (r, []) (c, []) /\ (forall e d', r = DErr e d' -> e <> EIo -> d' = d /\ snd c = i).
+  Proof.
+    intros Hrel Ha Hc. unfold agrees3. cbn [fst snd]. destruct r as [d1|e d1|]; cbn in Ha.
+    - split; [tauto|discriminate].
+    - assert (G : e <> EIo -> fst c = CErr e /\ d1 = d) by (intros; destruct e; try congruence; exact Ha).
+      destruct (dec_err_eq e EIo) as [->|Hne].
+      + split; [exact Ha|]. intros e0 d0 E Hne. injection E as E1 E2. congruence.
+      + destruct (G Hne) as [G1 G2]. subst d1. pose proof (Hc _ G1) as Hi. split.
+        * destruct e; try congruence; (split; [exact G1|split; [rewrite Hi; exact Hrel|reflexivity]]).
+        * intros e0 d0 E _. injection E as E1 E2. split; [symmetry; exact E2|exact Hi].
+    - contradiction.
+  Qed.
+
+  Lemma step_ok d i op : rel d i -> agrees3 (dec_step d op) (c_step i op) /\
+    (is_cube op = false -> forall e d', fst (dec_step d op) = DErr e d' -> e <> EIo -> d' = d /\ snd (fst (c_step i op)) = i).
+  Proof.
+    intros Hrel. destruct op as [ws|oob| | | | |ws]; cbn [dec_step c_step is_cube fst snd].
+    - destruct (lift _ d i _ Hrel (read_ok d i ws Hrel) (c_consume_err i ws _)) as [A B]. split; [exact A|intros _; exact B].
+    - destruct (lift _ d i _ Hrel (rect_ok d i oob Hrel) (c_consume_err i oob _)) as [A B]. split; [exact A|intros _; exact B].
+    - destruct (lift _ d i _ Hrel (skip_ok d i Hrel) (c_consume_err i false _)) as [A B]. split; [exact A|intros _; exact B].
+    - destruct (lift _ d i (COk, c_skip_mips i) Hrel (skip_mips_ok d i Hrel) ltac:(cbn; discriminate)) as [A B]. split; [exact A|intros _; exact B].
+    - pose proof (rewind_prev_ok d i Hrel) as H. unfold agrees3. cbn [fst snd]. split.
+      + destruct (rewind_prev d) as [d1|e d1|]; [auto| |exact H]. destruct e; try contradiction. exact H.
+      + intros _ e d' E Hne. rewrite E in H. destruct e; contradiction.
+    - pose proof (rewind_start_ok d i Hrel) as H. unfold agrees3. cbn [fst snd]. split.
+      + destruct (rewind_start d) as [d1|e d1|]; [subst d1; split; [reflexivity|split; [apply rel_init|reflexivity]]| |exact H].
+        destruct e; try contradiction. apply H.
+      + intros _ e d' E Hne. rewrite E in H. destruct e; contradiction.
+    - split; [apply read_cube_ok; exact Hrel|discriminate].
+  Qed.
+
+  (* runs: the decoder and the cursor proceed in lock step; the comparison ends at an I/O refusal,
+     which requires a data section above i64::MAX bytes *)
+  Fixpoint sim_run (d : decoder) (i : N) (ops : list dec_op) : Prop :=
+    match ops with
+    | [] => True
+    | op :: rest =>
+        let rc := dec_step d op in
+        let c := c_step i op in
+        match fst rc with
+        | DOk d' => fst (fst c) = COk /\ snd rc = snd c /\ rel d' (snd (fst c)) /\ sim_run d' (snd (fst c)) rest
+        | DErr EIo _ => I64MAX < L * len
+        | DErr e d' => fst (fst c) = CErr e /\ snd rc = snd c /\ rel d' (snd (fst c)) /\
+                       (is_cube op = false -> d' = d /\ snd (fst c) = i) /\ sim_run d' (snd (fst c)) rest
+        | DPanic => False
+        end
+    end.
+
+  Lemma sim_run_holds ops : forall d i, rel d i -> sim_run d i ops.
+  Proof.
+    induction ops as [|op rest IH]; intros d i Hrel; cbn [sim_run]; [exact I|].
+    destruct (step_ok d i op Hrel) as [H1 H2]. unfold agrees3 in H1.
+    destruct (fst (dec_step d op)) as [d1|e d1|] eqn:E; [| |exact H1].
+    - destruct H1 as [A [B C]]. split; [exact A|]. split; [exact C|]. split; [exact B|]. apply IH. exact B.
+    - destruct (dec_err_eq e EIo) as [->|Hne]; [exact H1|].
+      assert (G : fst (fst (c_step i op)) = CErr e /\ rel d1 (snd (fst (c_step i op))) /\ snd (dec_step d op) = snd (c_step i op))
+        by (destruct e; try congruence; exact H1).
+      destruct G as [A [B C]].
+      assert (G' : fst (fst (c_step i op)) = CErr e /\ snd (dec_step d op) = snd (c_step i op) /\ rel d1 (snd (fst (c_step i op))) /\
+                   (is_cube op = false -> d1 = d /\ snd (fst (c_step i op)) = i) /\ sim_run d1 (snd (fst (c_step i op))) rest).
+      { split; [exact A|]. split; [exact C|]. split; [exact B|]. split; [|apply IH; exact B].
+        intros Hc. apply (H2 Hc e d1 eq_refl Hne). }
+      destruct e; try congruence; exact G'.
+  Qed.
 End TexIter.
+
+(* ------------------------------------------------------------ the cursor is an index into the flattened list *)
+Lemma nth_error_flat_map_const {A B} (f : A -> list B) (m : nat) :
+  forall l, (forall a, In a l -> length (f a) = m) ->
+  forall k j, (j < m)%nat ->
+  nth_error (flat_map f l) (k * m + j) = match nth_error l k with Some a => nth_error (f a) j | None => None end.
+Proof.
+  induction l as [|a l IH]; intros Hlen k j Hj.
+  - cbn [flat_map]. destruct k; [destruct (0 * m + j)%nat|destruct (S k * m + j)%nat]; reflexivity.
+  - cbn [flat_map]. destruct k as [|k].
+    + cbn [Nat.mul Nat.add nth_error]. apply nth_error_app1. rewrite (Hlen a (or_introl eq_refl)). exact Hj.
+    + cbn [nth_error]. rewrite nth_error_app2 by (rewrite (Hlen a (or_introl eq_refl)); lia).
+      rewrite (Hlen a (or_introl eq_refl)). replace (S k * m + j - m)%nat with (k * m + j)%nat by lia.
+      apply IH; [|exact Hj]. intros a' Ha'. apply Hlen. right. exact Ha'.
+Qed.
+
+Theorem cursor_points_into_flatten p w h m n i : 1 <= m -> i < n * m ->
+  nth_error (spec_array p w h m n) (N.to_nat i) =
+  Some (mkSurf (mip_dim w (i mod m)) (mip_dim h (i mod m)) (c_offset p w h m i)
+               (spec_len p (mip_dim w (i mod m)) (mip_dim h (i mod m)))).
+Proof.
+  intros Hm Hi. unfold spec_array.
+  pose proof (N.div_mod i m ltac:(lia)) as E. pose proof (N.mod_lt i m ltac:(lia)) as Hlt.
+  assert (Hq : i / m < n) by (apply N.div_lt_upper_bound; lia).
+  replace (N.to_nat i) with (N.to_nat (i / m) * N.to_nat m + N.to_nat (i mod m))%nat by lia.
+  rewrite (nth_error_flat_map_const _ (N.to_nat m)).
+  - rewrite nseq_nth_error by lia. rewrite spec_mips_nth by lia.
+    rewrite !N.add_0_l, !N2Nat.id. unfold c_offset, offset_of, part. f_equal. f_equal. lia.
+  - intros a _. apply spec_mips_length.
+  - lia.
+Qed.
+
+(* ------------------------------------------------------------ C08 for textures, arrays, cube maps *)
+Definition shape_mips_ok (sh : shape) : Prop :=
+  match sh with ShTexture _ _ m | ShArray _ _ _ m _ | ShVolume _ _ _ m => 1 <= m <= 255 end.
+
+Theorem decoder_refines_cursor_tex sh p ops : wf_pixel_info p -> fits sh p -> shape_mips_ok sh ->
+  match sh with
+  | ShTexture w h m => sim_run p w h m 1 (layout_of_shape sh p) (dec_init (layout_of_shape sh p)) 0 ops
+  | ShArray k w h m n => sim_run p w h m n (layout_of_shape sh p) (dec_init (layout_of_shape sh p)) 0 ops
+  | ShVolume _ _ _ _ => True
+  end.
+Proof.
+  intros Hp [He Ht] Hm. destruct sh as [w h m|k w h m n|w h d m]; [| |exact I];
+    cbn [elem_total exact_total shape_mips_ok layout_of_shape] in *.
+  - apply sim_run_holds; try assumption; try lia; try reflexivity;
+      try (intros a Ha; discriminate Ha); apply rel_init; try assumption; try lia; reflexivity.
+  - apply sim_run_holds; try assumption; try lia; try reflexivity;
+      try (intros a Ha; injection Ha as <-; split; reflexivity); apply rel_init; try assumption; try lia; reflexivity.
+Qed.
+
+Lemma c_offset_total p w h m n : 1 <= m -> c_offset p w h m (n * m) = sum_lens p w h 0 (N.to_nat m) * n.
+Proof.
+  intros Hm. unfold c_offset, offset_of, part. rewrite N.div_mul by lia. rewrite N.mod_mul by lia. cbn. lia.
+Qed.
+
+Lemma spec_dims2_mips h w hh m : spec_dims2 h = LOk (w, hh, m) -> m = lh_mips h /\ m <= 255.
+Proof.
+  unfold spec_dims2. destruct (lh_w h =? 0); [discriminate|]. destruct (lh_h h =? 0); [discriminate|].
+  destruct (N.ltb_spec 255 (lh_mips h)); [discriminate|]. intros E. injection E as _ _ <-. split; [reflexivity|assumption].
+Qed.
+Lemma spec_dims3_mips h w hh d m : spec_dims3 h = LOk (w, hh, d, m) -> m = lh_mips h /\ m <= 255.
+Proof.
+  unfold spec_dims3. destruct (lh_w h =? 0); [discriminate|]. destruct (lh_h h =? 0); [discriminate|].
+  destruct (lh_depth h) as [d'|]; [|discriminate]. destruct (d' =? 0); [discriminate|].
+  destruct (N.ltb_spec 255 (lh_mips h)); [discriminate|]. intros E. injection E as _ _ _ <-. split; [reflexivity|assumption].
+Qed.
+Lemma spec_shape_mips h sh : 1 <= lh_mips h -> spec_shape h = LOk sh -> shape_mips_ok sh.
+Proof.
+  intros H1. unfold spec_shape.
+  destruct (lh_dx10 h); [destruct (lh_cube10 h); destruct (lh_dim h)|
+    destruct (has_bits (lh_caps2 h) CAPS2_CUBE_MAP); [destruct (has_bits (lh_caps2 h) CAPS2_VOLUME)|destruct (has_bits (lh_caps2 h) CAPS2_VOLUME)]];
+  try discriminate;
+  try (destruct (spec_dims2 h) as [[[w hh] m]|e] eqn:E2; [destruct (spec_dims2_mips h w hh m E2) as [-> ?]|discriminate]);
+  try (destruct (spec_dims3 h) as [[[[w hh] d] m]|e] eqn:E3; [destruct (spec_dims3_mips h w hh d m E3) as [-> ?]|discriminate]);
+  try (destruct (lh_array h * 6 <? U32); [|discriminate]);
+  try (destruct (lh_array h =? 1));
+  intros E; injection E as <-; cbn [shape_mips_ok]; lia.
+Qed.
+
+Theorem decoder_refines_cursor_hdr h p L ops :
+  wf_pixel_info p -> 1 <= lh_mips h -> from_header_with h p = LOk L ->
+  match L with
+  | LTexture t => sim_run (t_p t) (t_w t) (t_h t) (t_mips t) 1 L (dec_init L) 0 ops
+  | LArray a => sim_run (a_p a) (a_w a) (a_h a) (a_mips a) (a_len a) L (dec_init L) 0 ops
+  | LVolume _ => True
+  end.
+Proof.
+  intros Hp H1 H. destruct (from_header_ok_inv h p L H) as [sh [Hs [Hf [-> Hpos]]]].
+  pose proof (spec_shape_mips h sh H1 Hs) as Hm.
+  pose proof (decoder_refines_cursor_tex sh p ops Hp Hf Hm) as T.
+  destruct sh; cbn [layout_of_shape t_p t_w t_h t_mips a_p a_w a_h a_mips a_len] in *; exact T.
+Qed.
